@@ -5,6 +5,7 @@
 -/
 import Drx.LinkJs
 import DrxProofs.LscrConst
+import DrxProofs.LinkJsThe
 namespace Drx.LinkJs
 open Drx Drx.Lscr Drx.Gen Drx.Spec Drx.Link
 set_option linter.unusedSimpArgs false
@@ -91,6 +92,11 @@ theorem js_assign (fm : Bool) (p : Int) (l r : Node) (ind : Nat) (lt rt : Str)
 theorem js_toList (fm : Bool) (p p' : Int) (nm : Str) (ops : List Node) (ind : Nat) (l : List Str)
     (h : jsStrs fm false ops ind = .ok l) :
     js fm false (.toList p (.loadList nm p' ops)) ind = .ok (.s (S "list(" ++ commaJoinRev l ++ S ")")) := by
+  simp only [js, h, bind, Except.bind, pure, Except.pure]
+
+theorem js_toDict (fm : Bool) (p p' : Int) (nm : Str) (ops : List Node) (ind : Nat) (l : List Str)
+    (h : jsStrs fm false ops ind = .ok l) :
+    js fm false (.toDict p (.loadList nm p' ops)) ind = .ok (.s (S "propList(" ++ commaJoinRev l ++ S ")")) := by
   simp only [js, h, bind, Except.bind, pure, Except.pure]
 
 theorem callJsName_plain (f : Str) (inTell : Bool) (ps : Lscr.Name)
@@ -273,6 +279,7 @@ theorem np_num (d k : Nat) : (JE.num d k).needsParen = true := rfl
 theorem np_un (op : Spec.Name) (a : JE) : (JE.un op a).needsParen = true := rfl
 theorem np_id (n : Spec.Name) : (JE.id n).needsParen = false := rfl
 theorem np_mem (o : JE) (n : Spec.Name) : (JE.mem o n).needsParen = false := rfl
+theorem np_idx (o i : JE) : (JE.idx o i).needsParen = false := rfl
 theorem np_call (f : JE) (as : List JE) : (JE.call f as).needsParen = false := rfl
 theorem np_bin (op : Spec.Name) (a b : JE) : (JE.bin op a b).needsParen = false := rfl
 theorem np_lstr (s : Spec.Name) : (JE.lstr s).needsParen = false := rfl
@@ -329,6 +336,61 @@ theorem tx_special (c : JCtx) : ∀ (e : Expr), JsOkE e = true →
           simp only [hp, Bool.false_eq_true, if_false]
           exact head_append_some _ _ _ ih
       | none => simp [toJsE, hop, hm, jmem, jcall, txJ, JE.needsParen, S, special, isAsciiDigit]
+  | .plist as, _ => by simp [toJsE, jcall, txJ, JE.needsParen, S, special, isAsciiDigit]
+  | .oprop v o, h => by
+    simp only [JsOkE, Bool.and_eq_true] at h
+    have ih := tx_special c o h.2
+    simp only [toJsE, txJ, np_mem, List.append_assoc]
+    cases hp : (toJsE c o).needsParen with
+    | true => simp [hp, S, special, isAsciiDigit]
+    | false =>
+      rw [hp] at ih
+      simp only [hp, Bool.false_eq_true, if_false]
+      exact head_append_some _ _ _ ih
+  | .chunk k a b d, h => by
+    simp only [JsOkE, Bool.and_eq_true] at h
+    have ih := tx_special c d h.2
+    simp only [toJsE, jmem, txJ, np_mem, np_idx, Bool.false_eq_true, if_false, List.append_assoc]
+    cases hp : (toJsE c d).needsParen with
+    | true => simp [hp, S, special, isAsciiDigit]
+    | false =>
+      rw [hp] at ih
+      simp only [hp, Bool.false_eq_true, if_false]
+      exact head_append_some _ _ _ ih
+  | .the t k [e], h => by
+    rcases jsOkE_the t k e h with ⟨h1, _⟩ | ⟨op, r, ty, hs, hty, _, _, he⟩ | ⟨rfl, he⟩
+    · cases t <;> first
+        | (simp [theTbl] at h1; done)
+        | simp [toJsE, toJsEs, toJsThe, jcall, txJ, JE.needsParen, S, special, isAsciiDigit]
+    · have ih := tx_special c e he
+      rcases toJsE_strThe c t k e op r ty hs hty with ⟨_, e1⟩ | ⟨_, e1⟩
+      · rw [e1]
+        simp only [txJ, np_mem, np_idx, Bool.false_eq_true, if_false, List.append_assoc]
+        cases hp : (toJsE c e).needsParen with
+        | true => simp [hp, S, special, isAsciiDigit]
+        | false =>
+          rw [hp] at ih
+          simp only [hp, Bool.false_eq_true, if_false]
+          exact head_append_some _ _ _ ih
+      · rw [e1]
+        simp only [jmem, txJ, np_mem, Bool.false_eq_true, if_false, List.append_assoc]
+        cases hp : (toJsE c e).needsParen with
+        | true => simp [hp, S, special, isAsciiDigit]
+        | false =>
+          rw [hp] at ih
+          simp only [hp, Bool.false_eq_true, if_false]
+          exact head_append_some _ _ _ ih
+    · rw [toJsE_fieldThe]
+      simp [jcall, txJ, JE.needsParen, S, special, isAsciiDigit]
+  | .the .special k [], h => by
+    have hk : k < 6 := by simpa [JsOkE] using h
+    simp [toJsE, toJsEs, toJsThe, hk, jid, txJ, JE.needsParen, S, special, isAsciiDigit]
+  | .key v, h => by
+    by_cases hd : v = "date".toList ∨ v = "time".toList
+    · simp only [toJsE, hd, if_true]
+      simp [jmem, jid, txJ, JE.needsParen, S, special, isAsciiDigit]
+    · simp only [toJsE, hd, if_false, txJ, np_mem, jid, np_id, Bool.false_eq_true, List.append_assoc]
+      exact head_append_some _ _ _ (jsIdLex_head _ (key_owner_lex v))
 
 /-! ### J2–J4: the text of an expression -/
 
@@ -345,6 +407,88 @@ theorem receiver_tx (c : JCtx) (a : Expr) (h : JsOkE a = true) :
     jsReceiver (txJ (toJsE c a)) = if (toJsE c a).needsParen then S "(" ++ txJ (toJsE c a) ++ S ")" else txJ (toJsE c a) := by
   rw [jsReceiver_eq, tx_special c a h]
   cases (toJsE c a).needsParen <;> simp
+
+/-- `PropertyAccessorOperation.generate_js` with an explicit object (`the P of obj`, opcodes 61 / 62) -/
+theorem js_propAcc_ex (p : Int) (obj : Node) (prop : Str) (ind : Nat) (t : Str) (h : js true false obj ind = .ok (.s t)) :
+    js true false (.propAcc p obj prop true) ind = .ok (.s (jsReceiver t ++ S "." ++ prop)) := by
+  simp only [js, h, bind, Except.bind, pure, Except.pure, Name.str, Bool.not_true, Bool.false_eq_true, and_false, if_false]
+
+/-- … with an owner node the opcode created, whose text is not `tell_obj` -/
+theorem js_propAcc_obj (p : Int) (obj : Node) (prop : Str) (ind : Nat) (t : Str) (h : js true false obj ind = .ok (.s t))
+    (hne : t ≠ S "tell_obj") :
+    js true false (.propAcc p obj prop false) ind = .ok (.s (jsReceiver t ++ S "." ++ prop)) := by
+  have : ¬ ((Lscr.Name.s t == Lscr.Name.s (S "tell_obj")) = true ∧ (!false) = true) := by
+    intro h'; exact hne (by simpa using h'.1)
+  simp only [js, h, bind, Except.bind, pure, Except.pure, Name.str, this, if_false]
+
+/-- `StringOperation.generate_js`, one position -/
+theorem js_strOp_one (kind : Str) (p : Int) (start of_ : Node) (ind : Nat) (c a : Str)
+    (hc : js true false of_ 0 = .ok (.s c)) (ha : js true false start 0 = .ok (.s a)) :
+    js true false (.strOp kind p start .none of_) ind = .ok (.s (jsReceiver c ++ S "." ++ kind ++ S "[" ++ a ++ S "]")) := by
+  simp only [js, Node.isNone, if_true, hc, ha, bind, Except.bind, pure, Except.pure, Name.str]
+
+/-- … a range of positions -/
+theorem js_strOp_range (kind : Str) (p : Int) (start stop of_ : Node) (ind : Nat) (c a b : Str) (hs : stop.isNone = false)
+    (hc : js true false of_ 0 = .ok (.s c)) (ha : js true false start 0 = .ok (.s a)) (hb : js true false stop 0 = .ok (.s b)) :
+    js true false (.strOp kind p start stop of_) ind =
+      .ok (.s (jsReceiver c ++ S "." ++ kind ++ S "[range(" ++ a ++ S ", " ++ b ++ S ")]")) := by
+  simp only [js, hs, Bool.false_eq_true, if_false, hc, ha, hb, bind, Except.bind, pure, Except.pure, Name.str]
+
+theorem isZero_true (b : Expr) (h : isZero b = true) : b = .int 0 := by
+  cases b with
+  | int k => cases k with
+    | zero => rfl
+    | succ k => simp [isZero] at h
+  | _ => simp [isZero] at h
+
+theorem toJsE_chunk_range (c : JCtx) (k : ChunkKind) (a b d : Expr) (h : isZero b = false) :
+    toJsE c (.chunk k a b d) = .idx (jmem (toJsE c d) k.tag) (jcall "range" [toJsE c a, toJsE c b]) := by
+  cases b with
+  | int n => cases n with
+    | zero => simp [isZero] at h
+    | succ n => simp [toJsE]
+  | _ => simp [toJsE]
+
+/-- the index of a built-in object as the model keeps it is, inside `idxJsOk`, the text of its translation -/
+theorem idx_tx (c : JCtx) (e : Expr) (hf : idxJsOk e = true) (nm : Lscr.Name) (h : idxName e = some nm) : nm = .s (txJ (toJsE c e)) := by
+  cases e with
+  | int k => simp only [idxName, Option.some.injEq] at h; subst h; simp [toJsE, txJ]
+  | var kd v =>
+    simp only [idxName, Option.some.injEq] at h; subst h
+    cases kd with
+    | loc =>
+      simp only [idxJsOk, Bool.and_eq_true, bne_iff_ne, ne_eq] at hf
+      have hm : ¬ v = "me".toList := hf.2
+      simp only [toJsE, hm, if_false, txJ]
+    | param =>
+      simp only [idxJsOk, Bool.and_eq_true, bne_iff_ne, ne_eq] at hf
+      have hm : ¬ v = "me".toList := hf.2
+      simp only [toJsE, hm, if_false, txJ]
+    | _ => simp [idxJsOk] at hf
+  | _ => simp [idxJsOk] at hf
+
+/-- `UnaryStringOperation.generate_js`: `the last <chunk> of e` -/
+theorem js_unaryStr_last (p : Int) (ty : Str) (x : Node) (ind : Nat) (t : Str) (hx : js true false x ind = .ok (.s t)) :
+    js true false (.unaryStr (S "last") p (some ty) x) ind = .ok (.s (jsReceiver t ++ S "." ++ ty ++ S "[\"" ++ S "last" ++ S "\"]")) := by
+  have hd : dictGet OpNames.jsUnaOp (S "last") = .ok (S "last") := rfl
+  simp only [js, hd, hx, bind, Except.bind, pure, Except.pure, Name.str, if_true]
+
+/-- … `the number of <chunk>s of e` -/
+theorem js_unaryStr_number (p : Int) (ty : Str) (x : Node) (ind : Nat) (t : Str) (hx : js true false x ind = .ok (.s t)) :
+    js true false (.unaryStr (S "number") p (some ty) x) ind = .ok (.s (jsReceiver t ++ S "." ++ ty ++ S "." ++ S "length")) := by
+  have hd : dictGet OpNames.jsUnaOp (S "number") = .ok (S "length") := rfl
+  have hne : ¬ (S "number" = S "last") := by decide
+  simp only [js, hd, hx, bind, Except.bind, pure, Except.pure, Name.str, hne, if_false]
+
+theorem escQ_last : escQ "last".toList = S "last" := by decide +kernel
+
+/-- the three owner leaves of the built-in property tables -/
+theorem js_owner (cls : Leaf) (w : Str) (hcls : (cls = .sprite ∧ w = S "sprite") ∨ (cls = .cast ∧ w = S "member") ∨ (cls = .soundChan ∧ w = S "sound"))
+    (nm : Str) (q : Int) (ind : Nat) :
+    js true false (.leaf cls (.s nm) q) ind = .ok (.s (w ++ S "(" ++ nm ++ S ")")) ∧ w ++ S "(" ++ nm ++ S ")" ≠ S "tell_obj" ∧
+      jsReceiver (w ++ S "(" ++ nm ++ S ")") = w ++ S "(" ++ nm ++ S ")" := by
+  rcases hcls with ⟨rfl, rfl⟩ | ⟨rfl, rfl⟩ | ⟨rfl, rfl⟩ <;>
+    refine ⟨by simp [js, leafJs, Name.str, S], by simp [S], by simp [jsReceiver, S, isAsciiDigit]⟩
 
 mutual
 /-- **J-text** (expressions): `generate_js` of the image of `e`, as called by the script wrappers (`factory_method = True`),
@@ -457,12 +601,105 @@ theorem js_emb (c : JCtx) : ∀ (e : Expr), JsOkE e = true → ∀ (n : Node), E
   | .float _ _, hf, _, _, _ => by simp [JsOkE] at hf
   | .me, hf, _, _, _ => by simp [JsOkE] at hf
   | .mcall _ _ _, hf, _, _, _ => by simp [JsOkE] at hf
-  | .plist _, hf, _, _, _ => by simp [JsOkE] at hf
-  | .the _ _ _, hf, _, _, _ => by simp [JsOkE] at hf
-  | .key _, hf, _, _, _ => by simp [JsOkE] at hf
+  | .plist as, hf, n, h, ind => by
+    obtain ⟨p, p', ops, rfl, hops⟩ := h
+    have has : JsOkL as = true := by simpa [JsOkE] using hf
+    have ht := (js_embL c as has ops hops ind).reverse
+    have hl := jsStrs_texts true false ind _ _ ht (by intro h; cases h)
+    rw [js_toDict true p p' _ ops.reverse ind _ hl, commaJoinRev_reverse, joinWith_txL]
+    simp [toJsE, jcall, txJ, JE.needsParen, S]
+  | .oprop v o, hf, n, h, ind => by
+    obtain ⟨p, x, rfl, hx⟩ := h
+    simp only [JsOkE, Bool.and_eq_true] at hf
+    have ih := js_emb c o hf.2 x hx ind
+    rw [js_propAcc_ex p x v ind _ ih, receiver_tx c o hf.2]
+    simp only [toJsE, txJ]
+  | .chunk k a b d, hf, n, h, ind => by
+    obtain ⟨p, x, y, z, rfl, hx, hy, hz⟩ := h
+    simp only [JsOkE, Bool.and_eq_true] at hf
+    have iha := js_emb c a hf.1.1 x hx 0
+    have ihd := js_emb c d hf.2 z hz 0
+    rcases hy with ⟨hz0, rfl⟩ | ⟨hz0, hy⟩
+    · have hb0 := isZero_true b hz0
+      subst hb0
+      rw [js_strOp_one _ p x z ind _ _ ihd iha, receiver_tx c d hf.2]
+      simp only [toJsE, jmem, txJ, np_mem, Bool.false_eq_true, if_false, List.append_assoc]
+    · have ihb := js_emb c b hf.1.2 y hy 0
+      rw [js_strOp_range _ p x y z ind _ _ _ (emb_isNone b y hy) ihd iha ihb, receiver_tx c d hf.2, toJsE_chunk_range c k a b d hz0]
+      simp only [jmem, jcall, txJ, txArgs, np_mem, np_id, Bool.false_eq_true, if_false, List.append_assoc]
+      simp [S, List.append_assoc]
+  | .the t k as, hf, n, h, ind => by
+    match as, hf, h with
+    | [e], hf, h =>
+      simp only [Emb] at h
+      rcases jsOkE_the t k e hf with ⟨hf1, hf2⟩ | ⟨op0, r0, ty0, hs0, hty0, hnone, hnf, hfe⟩ | ⟨rfl, hfe⟩
+      · rcases h with ⟨p, q, cls, tb, w, nm, htb, hidx, rfl⟩ | ⟨p, x, op, r, ty, hst, _, _, _⟩ | ⟨ht, _⟩
+        · have hnm := idx_tx c e hf2 nm hidx
+          subst hnm
+          cases t <;> simp only [theTbl, Option.some.injEq, Prod.mk.injEq, reduceCtorEq] at htb
+          all_goals
+            obtain ⟨rfl, rfl, rfl⟩ := htb
+            first
+              | (obtain ⟨e1, e2, e3⟩ := js_owner .soundChan (S "sound") (Or.inr (Or.inr ⟨rfl, rfl⟩)) (txJ (toJsE c e)) q ind
+                 rw [js_propAcc_obj p _ _ ind _ e1 e2, e3]
+                 simp [toJsE, toJsEs, toJsThe, jcall, txJ, txArgs, JE.needsParen, nameOrUnknown, S, List.append_assoc])
+              | (obtain ⟨e1, e2, e3⟩ := js_owner .sprite (S "sprite") (Or.inl ⟨rfl, rfl⟩) (txJ (toJsE c e)) q ind
+                 rw [js_propAcc_obj p _ _ ind _ e1 e2, e3]
+                 simp [toJsE, toJsEs, toJsThe, jcall, txJ, txArgs, JE.needsParen, nameOrUnknown, S, List.append_assoc])
+              | (obtain ⟨e1, e2, e3⟩ := js_owner .cast (S "member") (Or.inr (Or.inl ⟨rfl, rfl⟩)) (txJ (toJsE c e)) q ind
+                 rw [js_propAcc_obj p _ _ ind _ e1 e2, e3]
+                 simp [toJsE, toJsEs, toJsThe, jcall, txJ, txArgs, JE.needsParen, nameOrUnknown, S, List.append_assoc])
+        · cases t <;> first | (simp [theTbl] at hf1; done) | (simp [strThe] at hst)
+        · subst ht; simp [theTbl] at hf1
+      · rcases h with ⟨p, q, cls, tb, w, nm, htb, _, _⟩ | ⟨p, x, op, r, ty, hst, hty, rfl, hx⟩ | ⟨ht, _⟩
+        · rw [hnone] at htb; cases htb
+        · rw [hs0] at hst
+          simp only [Option.some.injEq, Prod.mk.injEq] at hst
+          obtain ⟨rfl, rfl⟩ := hst
+          rw [hty0] at hty
+          simp only [Option.some.injEq] at hty
+          subst hty
+          have ih := js_emb c e hfe x hx ind
+          rcases toJsE_strThe c t k e op0 r0 ty0 hs0 hty0 with ⟨rfl, e1⟩ | ⟨rfl, e1⟩
+          · rw [e1, js_unaryStr_last p ty0 x ind _ ih, receiver_tx c e hfe]
+            simp only [txJ, np_mem, Bool.false_eq_true, if_false, escQ_last]
+            simp [S, List.append_assoc]
+          · rw [e1, js_unaryStr_number p ty0 x ind _ ih, receiver_tx c e hfe]
+            simp only [jmem, txJ, np_mem, Bool.false_eq_true, if_false]
+            simp [S, List.append_assoc]
+        · exact absurd ht hnf
+      · rcases h with ⟨p, q, cls, tb, w, nm, htb, _, _⟩ | ⟨p, x, op, r, ty, hst, _, _, _⟩ | ⟨_, p, q, x, rfl, hx⟩
+        · simp [theTbl] at htb
+        · simp [strThe] at hst
+        · have ih := js_emb c e hfe x hx ind
+          have hu := js_unary true _ q x ind _ _ jsUnaOp_field ih
+          have hne : S "field" ++ S "(" ++ txJ (toJsE c e) ++ S ")" ≠ S "tell_obj" := by simp [S]
+          rw [js_propAcc_obj p _ _ ind _ hu hne, toJsE_fieldThe]
+          simp [jcall, txJ, txArgs, JE.needsParen, jsReceiver, isAsciiDigit, S, List.append_assoc]
+    | [], hf, h =>
+      cases t with
+      | special =>
+        have hk : k < 6 := by simpa [JsOkE] using hf
+        simp only [Emb] at h
+        obtain ⟨p, rfl⟩ := h
+        obtain ⟨h1, h2⟩ := special_owner k hk
+        simp only [js, leafJs, h1]
+        simp [toJsE, toJsEs, toJsThe, hk, jid, txJ, JE.needsParen, nameOrUnknown, Name.str, S]
+      | _ => simp [JsOkE] at hf
+    | _ :: _ :: _, hf, _ => simp [JsOkE] at hf
+  | .key v, hf, n, h, ind => by
+    obtain ⟨p, rfl⟩ := h
+    by_cases hd : v = "date".toList ∨ v = "time".toList
+    · have hd' : v = S "date" ∨ v = S "time" := hd
+      simp only [js, hd', if_true, toJsE, hd]
+      simp [jmem, jid, txJ, txArgs, JE.needsParen, S]
+    · have hd' : ¬ (v = S "date" ∨ v = S "time") := hd
+      have ho := key_owner v
+      simp only [js, hd', if_false, toJsE, hd, txJ, jid, np_id, Bool.false_eq_true]
+      cases hg : dictGet PropTables.knownPropertiesOperation v with
+      | ok o => rw [hg] at ho; simp only at ho; simp only [← ho]
+      | error e => rw [hg] at ho; simp only at ho; simp only [← ho]; simp [S]
   | .movie _, hf, _, _, _ => by simp [JsOkE] at hf
-  | .oprop _ _, hf, _, _, _ => by simp [JsOkE] at hf
-  | .chunk _ _ _ _, hf, _, _, _ => by simp [JsOkE] at hf
 /-- argument lists: one text per argument, in source order -/
 theorem js_embL (c : JCtx) : ∀ (as : List Expr), JsOkL as = true → ∀ (ops : List Node), EmbL as ops → ∀ (ind : Nat),
     Texts true ind ops (txL c as)
